@@ -144,6 +144,36 @@ def containment_program(n, edges, kinds, naming=None):
     return (texts[0] if naming is None else texts), fields
 
 
+TWO_SLOT = ["Result<{A}, {B}>", "Dictionary<{A}, {B}>", "Result<Sequence<{A}>, {B}?>", "Dictionary<{A}, Sequence<{B}>>",
+            "Sequence<Result<{A}?, Dictionary<int32, {B}>>>"]
+
+
+def two_slot_program(n, plain, pairs, kinds):
+    """plain: (src, dst) single-target fields; pairs: (src, dst1, dst2, form) fields whose type carries two struct/enum slots
+    (both slots of a Result or a Dictionary lead somewhere: visiting the first must not stop the second from being walked)."""
+    fields = {}
+    lines = ["module M"]
+    for i in range(n):
+        scoped, kind = "M::N%d" % i, kinds[i]
+        where = (0, len(lines) + 1)
+        members = []
+        for j, (a, b) in enumerate(plain):
+            if a == i:
+                members.append(("p%d" % j, "N%d" % b, ("M::N%d" % b,)))
+        for j, (a, b1, b2, form) in enumerate(pairs):
+            if a == i:
+                members.append(("q%d" % j, TWO_SLOT[form].format(A="N%d" % b1, B="N%d" % b2), ("M::N%d" % b1, "M::N%d" % b2)))
+        if kind == "enum":
+            body = ["Z"] + ["V%s(%s: %s)" % (f, f, t) for f, t, _ in members]
+            lines.append("enum N%d { %s }" % (i, ", ".join(body)))
+        else:
+            body = ["x: bool"] + ["%s: %s" % (f, t) for f, t, _ in members]
+            lines.append("%s N%d { %s }" % (kind, i, ", ".join(body)))
+        for f, t, dsts in members:
+            fields[(scoped, f)] = (t, dsts, "enum" if kind == "enum" else "struct", where)
+    return "\n".join(lines) + "\n", fields
+
+
 E032_RE = re.compile(r"^type (\S+) illegally references itself: (.*)$")
 NOTE_RE = re.compile(r"^(struct|enum) '([^']+)' contains a field named '([^']+)' that is of type '(.*)'$")
 
@@ -204,7 +234,7 @@ def judge_containment(ctx, text, n, edges, fields, resp, family, naming=None):
             kind, container, fname, ttext = nm.groups()
             f = fields.get((a, fname))
             ctx.stats["notes_checked"] += 1
-            if container != a.split("::")[-1] or f is None or f[1] != b or f[2] != kind or \
+            if container != a.split("::")[-1] or f is None or (b not in f[1] if isinstance(f[1], tuple) else f[1] != b) or f[2] != kind or \
                     re.sub(r"(::)?(\w+::)+", "", f[0]).replace(" ", "") != re.sub(r"(::)?(\w+::)+", "", ttext).replace(" ", ""):
                 ctx.violate("note-not-a-real-field", "note %r does not describe a real field leading from %s to %s (model: %r)"
                             % (note["message"], a, b, f), replay)
@@ -290,6 +320,52 @@ def run_shard(ctx, spec):
         run_batch(ctx, items, lambda it, r: judge_containment(ctx, it[0], it[1], it[2], it[3], r, "random"))
         if items:
             ctx.sample({"family": "random containment graph", "program": items[0][0]}, limit=1)
+    elif kind == "two-slot":
+        # one field, two slots, both leading to user-defined types
+        _, idx, nshards, fraction = spec
+        rng = ctx.rng("ts/%d" % idx)
+        items = []
+        c = 0
+
+        def flush():
+            run_batch(ctx, items, lambda it, r: judge_containment(ctx, it[0], it[1], it[2], it[3], r, "two-slot"))
+            del items[:]
+        for n in (1, 2, 3):
+            graphs = list(all_digraphs(n))
+            for gi, g in enumerate(graphs):
+                for a in range(n):
+                    for b1 in range(n):
+                        for b2 in range(n):
+                            c += 1
+                            if c % nshards != idx:
+                                continue
+                            if n == 3 and fraction < 1 and ((c // nshards) + ctx.seed) % int(1 / fraction) != 0:
+                                continue
+                            form = (c // nshards) % len(TWO_SLOT) if n == 3 else None
+                            for fm in ([form] if form is not None else range(len(TWO_SLOT))):
+                                pairs = [(a, b1, b2, fm)]
+                                kinds = [KINDS[(c // 5 + i + fm) % 3] if (c // 3) % 4 == 0 else "struct" for i in range(n)]
+                                text, fields = two_slot_program(n, g, pairs, kinds)
+                                edges = [(x, y, 0) for x, y in g] + [(a, b1, 0), (a, b2, 0)]
+                                items.append((text, n, edges, fields))
+                                ctx.note_case(("ts", n, tuple(g), a, b1, b2, fm, tuple(kinds)))
+                                ctx.stats["two_slot_cases"] += 1
+                            if len(items) >= 500:
+                                flush()
+        # random: several two-slot fields in larger graphs
+        for _ in range(200 if fraction < 1 else 20000):
+            n = rng.randint(3, 7)
+            plain = [(rng.randrange(n), rng.randrange(n)) for _ in range(rng.randint(0, n))]
+            pairs = [(rng.randrange(n), rng.randrange(n), rng.randrange(n), rng.randrange(len(TWO_SLOT))) for _ in range(rng.randint(1, n))]
+            kinds = [rng.choice(KINDS) for _ in range(n)]
+            text, fields = two_slot_program(n, plain, pairs, kinds)
+            edges = [(x, y, 0) for x, y in plain] + [(a, b, 0) for a, b1, b2, _ in pairs for b in (b1, b2)]
+            items.append((text, n, edges, fields))
+            ctx.note_case(("tsr", n, tuple(plain), tuple(pairs), tuple(kinds)))
+            ctx.stats["two_slot_cases"] += 1
+            if len(items) >= 500:
+                flush()
+        flush()
     elif kind == "containment-modules":
         # the same identifiers in several modules (A::N0, B::N0, ...), one file per module, global spellings: anything keyed by
         # the unqualified identifier confuses a type with its namesake
@@ -500,6 +576,7 @@ def plan(tier, seed):
     specs += [("containment-random", nrand // 16, i) for i in range(16)]
     ncm = 8000 if tier == "quick" else 800000
     specs += [("containment-modules", ncm // 16, i) for i in range(16)]
+    specs += [("two-slot", i, 16, 1 / 8 if tier == "quick" else 1) for i in range(16)]
     specs += [("alias", i, 8) for i in range(8)]
     specs += [("alias-chains", (4000 if tier == "quick" else 400000) // 16, i) for i in range(16)]
     specs += [("alias-anon", (30000 if tier == "quick" else 2000000) // 16, i) for i in range(16)]
@@ -518,12 +595,13 @@ def main(tier, seed):
               "(all digraphs with self-loops on <= 3 nodes x %d wrapper rotations so that every edge meets every wrapper form; all "
               "65536 digraphs on 4 nodes in thorough, a seed-rotated 1/4 in quick; random graphs on 5-10 nodes with multi-edges; "
               "random graphs on 2-6 nodes spread over 2-3 modules/files so that types share identifiers across modules; wrapper "
-              "forms include tagged optional members), "
+              "forms include tagged optional members; one field whose Result / Dictionary type has a user-defined type in *both* slots on top of "
+              "every digraph on <= 3 nodes, and random graphs with several such fields), "
               "all 5^4 alias target graphs, all inheritance digraphs on <= 3 (thorough 4) interfaces. Reference: SCCs of the "
               "generating graph; every reported chain and note is validated against the generated fields. distinct_nontrivial = "
               "distinct graphs (with wrappers and node kinds) having at least one edge" % len(WRAPPERS)),
         required={"cyclic_cases": 500, "acyclic_cases": 50, "chains_checked": 500, "notes_checked": 500, "alias_cyclic": 100,
-                  "alias_acyclic": 50, "inherit_acyclic": 20, "inherit_cyclic": 20, "alias_anon_graphs": 1000, "containment_module_cases": 4000, "alias_chain_cases": 2000},
+                  "alias_acyclic": 50, "inherit_acyclic": 20, "inherit_cyclic": 20, "alias_anon_graphs": 1000, "containment_module_cases": 4000, "two_slot_cases": 2000, "alias_chain_cases": 2000},
         assumptions=["a cycle through an optional, sequence, dictionary (key or value) or result is illegal, as the statement says",
                      "for alias and inheritance loops only rejection (some error, no crash) is required, not a particular code, "
                      "except that E019 must name an alias that really is on a loop"],
